@@ -1,5 +1,6 @@
 // C01 — legal move generation is exact (differential against the rules oracle, lock-step tree walk)
 #include "bridge.h"
+#include <fstream>
 #include "ucisession.h"
 #include "registry.h"
 #include "ucirig.h"
@@ -223,6 +224,28 @@ bool c01_uci_perft(Tape& t, Report& rep, const gen::Root& root)
 bool prop_C01(Tape& t, Report& rep)
 {
     br::init_engine();
+    {
+        // plain regression witnesses (corpus/witness/C01.txt, one FEN per line): shrunk inputs of repaired findings, compared
+        // with the oracle two plies deep without any generator in between, once per process
+        static bool witnessesDone = false;
+        if (!witnessesDone)
+        {
+            witnessesDone = true;
+            std::ifstream wf(opt("witness_dir", "/verif/corpus/witness") + "/C01.txt");
+            std::string line;
+            while (std::getline(wf, line))
+            {
+                if (line.empty() || line[0] == '#') continue;
+                ref::Pos wp;
+                if (!ref::from_fen(line, wp) || !ref::domain_violation(wp).empty()) continue;
+                rep.cls("c01:regression_witness");
+                Position pos = br::from_fen(wp);
+                Ctx c{rep};
+                c.budget = 5000;
+                if (!cmp(pos, wp, 2, c, "")) return rep.fail(c.fail_sig, c.fail_msg + "\n regression witness: " + line);
+            }
+        }
+    }
     if (t.chance(1, 15)) return us::run(t, rep, us::F_C01);
     gen::Root root = gen::gen_root(t, &rep, 80);
     rep.decoded = root.describe();
